@@ -384,6 +384,50 @@ def find_matching(s: str, i: int, open_c="(", close_c=")") -> int:
     raise Undecided("unbalanced marker")
 
 
+_TOK = re.compile(r"[A-Za-z_]\w*|\d[\w.]*|\S")
+_KW = {"let", "mut", "if", "else", "match", "for", "in", "while", "loop", "return", "break", "continue", "fn", "as", "ref",
+       "true", "false", "Some", "None", "Ok", "Err", "Self", "self", "move", "proof", "assert", "by", "forall", "exists"}
+
+
+def local_rename_map(old_body: str, new_body: str, params: list):
+    """If `new_body` is `old_body` with some LOCAL variables consistently renamed and nothing else changed, return
+    {old name: new name}; otherwise None. (Token sequences must agree everywhere except at identifiers; the mapping must be
+    one-to-one, must map an identifier the same way at every occurrence, and must not touch parameters or keywords.)"""
+    a, b = _TOK.findall(old_body), _TOK.findall(new_body)
+    if len(a) != len(b) or a == b:
+        return None
+    fwd, back = {}, {}
+    ident = re.compile(r"[A-Za-z_]\w*$")
+    for x, y in zip(a, b):
+        if x == y and x not in fwd and y not in back:
+            if ident.match(x):
+                fwd.setdefault(x, x)
+                back.setdefault(x, x)
+            continue
+        if not (ident.match(x) and ident.match(y)) or x in _KW or y in _KW or x in params or y in params:
+            return None
+        if fwd.get(x, y) != y or back.get(y, x) != x:
+            return None
+        fwd[x], back[y] = y, x
+    m = {x: y for x, y in fwd.items() if x != y}
+    # a renamed local is introduced by a binder in the old body (`let x`, `let mut x`, `for x in`, `|x|`, pattern)
+    return m or None
+
+
+def rename_spec(spec: "FnSpec", m: dict) -> "FnSpec":
+    """the ghost annotations of one function with local names replaced (contract clauses talk about parameters and are left alone)"""
+    import copy
+    sp = copy.copy(spec)
+
+    def rw(t):
+        return re.sub(r"\b(%s)\b" % "|".join(re.escape(k) for k in m), lambda mo: m[mo.group(1)], t) if t else t
+    sp.loops = {k: rw(v) for k, v in spec.loops.items()}
+    sp.closures = dict(spec.closures)
+    sp.proofs = [(rw(p[0]), rw(p[1])) + tuple(p[2:]) for p in spec.proofs]
+    sp.ghosts = [rw(g) for g in spec.ghosts]
+    return sp
+
+
 def remap_anchor(needle: str, nth: int, old_body: str, new_lines: list):
     """The anchor text of a proof hint is gone from the translated body. If the body this hint was last locked against
     (anchors.lock.json) is known, find the line the anchor named THERE and carry it over to the current body through a
@@ -832,7 +876,11 @@ def assemble(unit: dict, scratch: str, passname="A") -> Assembled:
     asm = Assembled()
     lost_hints, anchor_bodies = [], {}
     alp = os.path.join(unit["dir"], "anchors.lock.json")
-    anchor_lock = (json.load(open(alp)) if os.path.exists(alp) else {}).get(passname, {})
+    _al = json.load(open(alp)) if os.path.exists(alp) else {}
+    anchor_lock = _al.get(passname, {})
+    raw_lock = _al.get(passname + ":raw", {})
+    raw_bodies, renamed_locals = {}, []
+    asm.raw_bodies, asm.renamed_locals = raw_bodies, renamed_locals
     asm.lost_hints, asm.anchor_bodies = lost_hints, anchor_bodies
     asm.inlined = inlined
     asm.all_fn_keys = sorted({k.split('#', 1)[1] for k in tr.get('all_fn_keys', [])})
@@ -903,8 +951,21 @@ def assemble(unit: dict, scratch: str, passname="A") -> Assembled:
         for f in groups[g]:
             key = f["key"]
             sp = specs.get(key)
-            body = splice_body(rn(f["body"]), sp, f["n_loops"], key, unit.get("diverge_spec", "ensures false"),
-                               lost=lost_hints, old_body=anchor_lock.get(key), rec=anchor_bodies)
+            raw_body = rn(f["body"])
+            old_spliced = anchor_lock.get(key)
+            if sp and (sp.loops or sp.proofs or sp.ghosts):
+                raw_bodies[key] = raw_body
+                old_raw = raw_lock.get(key)
+                if old_raw is not None and old_raw != raw_body:
+                    # locals renamed and nothing else: carry the rename into this function's ghost annotations
+                    rm_ = local_rename_map(old_raw, raw_body, [p["name"] for p in f["params"]])
+                    if rm_:
+                        sp = rename_spec(sp, rm_)
+                        renamed_locals.append(f"{key}: ghost annotations follow the renamed locals {rm_}")
+                        if old_spliced:
+                            old_spliced = re.sub(r"\b(%s)\b" % "|".join(re.escape(k) for k in rm_), lambda mo: rm_[mo.group(1)], old_spliced)
+            body = splice_body(raw_body, sp, f["n_loops"], key, unit.get("diverge_spec", "ensures false"),
+                               lost=lost_hints, old_body=old_spliced, rec=anchor_bodies)
             bc = (sp.opts.get("broadcast") if sp else None) or ",".join(unit.get("broadcast", []))
             if bc and bc != "none":
                 i = body.index("{")
